@@ -248,6 +248,10 @@ def do_case(ctx, specs, k, e2e, rw):
         e2e.run(ctx, specs, k, rw)
 
 
+def _wrap_nested(d, how):
+    return d if how == "bare" else ["list", [d]] if how == "list" else ["tuple", [d]]
+
+
 def dict_rich():
     big = st.lists(st.sampled_from(vals.IDENT_KEYS), min_size=4, max_size=12, unique=True).map(
         lambda ks: ["dict", [[["lit", k], ["lit", i]] for i, k in enumerate(ks)]])
@@ -260,7 +264,13 @@ def dict_rich():
     small_mixed = st.lists(st.tuples(oddkey, vals.simple_atoms).map(list), min_size=1, max_size=3).map(lambda l: ["dict", l])
     smw = st.one_of(small_mixed, small_mixed.map(lambda d: ["list", [d, ["dict", []]]]), small_mixed.map(lambda d: ["dict", [[["lit", "a"], d]]]),
                     st.lists(small_mixed, min_size=1, max_size=3).map(lambda l: ["list", l]))
-    return st.one_of(vals.shaped_multiset(), vals.shaped_multiset(), st.lists(st.one_of(wrap, vals.strdict(sub, 6)), min_size=1, max_size=4),
+    # several dicts that share ONE key whose values are small str-keyed dicts with different keys: the nested merge must obey
+    # the same limit as the outer one (k is drawn relative to the case, so k = 1 or 2 with a nested key union just above it)
+    inner = st.lists(st.sampled_from(["a", "b", "c", "d", "e"]), min_size=1, max_size=2, unique=True).map(
+        lambda ks: ["dict", [[["lit", k_], ["lit", 0]] for k_ in ks]])
+    nested_same_key = st.tuples(st.sampled_from(["cfg", "a"]), st.lists(inner, min_size=2, max_size=4), st.sampled_from(["bare", "list", "tuple"])).map(
+        lambda p: [_wrap_nested(["dict", [[["lit", p[0]], i]]], p[2]) for i in p[1]])
+    return st.one_of(vals.shaped_multiset(), vals.shaped_multiset(), st.lists(st.one_of(wrap, vals.strdict(sub, 6)), min_size=1, max_size=4), nested_same_key,
                      st.lists(smw, min_size=1, max_size=3),
                      tinfer.overflow_multiset().map(lambda p: p[0]))
 
